@@ -120,6 +120,15 @@ fn worker(args: &[String]) -> i32 {
             agg.rep.last_seed = seed;
             let p = plan::gen(&job.kind, seed, idx, thorough);
             let mut out = plan::exec(&p);
+            // determinism sample: every so often a run is executed twice; the digests of the full
+            // event logs must agree (a mismatch is a harness error, never a violation)
+            if (idx / nshards) % (if thorough { 211 } else { 97 }) == 3 {
+                let again = plan::exec(&p);
+                *agg.rep.stats.entry("determinism.runs_reexecuted_and_compared".into()).or_insert(0) += 1;
+                if again.digest != out.digest || again.violations.len() != out.violations.len() {
+                    agg.rep.harness_errors.push(format!("nondeterminism: job {} seed {seed}: digests {:x} vs {:x}", job.name, out.digest, again.digest));
+                }
+            }
             for v in &out.violations {
                 for pr in &v.props {
                     if pr != prop {
